@@ -29,7 +29,8 @@ def build(par, mix, rng):
     n = len(par)
     extra = []
     if mix == "Node":
-        nodes = [F.Node("n%d" % i, val=i, data={"k": [i, "x"]}, size=1000 + i, depth="d%d" % i) for i in range(n)]  # incl. keys named like read-only properties
+        # incl. keys named like read-only properties, and immutable containers holding mutable objects
+        nodes = [F.Node("n%d" % i, val=i, data={"k": [i, "x"]}, size=1000 + i, depth="d%d" % i, tup=([i], {"d": i}), fz=frozenset([(i, "f")])) for i in range(n)]
     elif mix == "AnyNode":
         nodes = [F.AnyNode(id=i, tag="t%d" % i) for i in range(n)]
     elif mix == "NM":
@@ -46,7 +47,7 @@ def build(par, mix, rng):
         nodes = [F.ValLM("n%d" % i, i % 2) for i in range(n)]
     elif mix == "LMSUB":
         # slotted base class first (root), then subclasses that add slots of their own
-        nodes = [F.LM("n%d" % i) if i % 3 == 0 else (F.LM2 if i % 3 == 1 else F.LM3)("n%d" % i, extra=("x", i), more=[i]) for i in range(n)]
+        nodes = [F.LM("n%d" % i) if i % 3 == 0 else (F.LM2 if i % 3 == 1 else F.LM3)("n%d" % i, extra=(None if i % 2 else ("x", i)), more=[i]) for i in range(n)]  # some slots hold None
     elif mix == "FALSYLM":
         nodes = [F.FalsyLM("n%d" % i, i % 2) for i in range(n)]
     elif mix == "HNode":
@@ -144,6 +145,9 @@ def pair_trees(o, c):
 
                 if not deep_eq(aa[k], ab[k]):
                     return bij, origs, "%s: attribute %s %r vs %r" % (how, k, aa[k], ab[k])
+                shared = _shared_mutable(aa[k], ab[k])
+                if shared:
+                    return bij, origs, "%s: attribute %s shares a mutable %s object with the original" % (how, k, shared)
     # second pass: child order / parent links through the bijection
     for a in origs:
         b = bij[id(a)]
@@ -153,6 +157,22 @@ def pair_trees(o, c):
         if (None if pa is None else id(bij[id(pa)])) != (None if b.parent is None else id(b.parent)):
             return bij, origs, "parent differs"
     return bij, origs, None
+
+
+def _shared_mutable(a, b):
+    """Type name of a mutable container that the copy's attribute value shares (by identity) with the original's."""
+    stack = [(a, b)]
+    while stack:
+        x, y = stack.pop()
+        if isinstance(x, (list, dict, set, bytearray)) and x is y:
+            return type(x).__name__
+        if isinstance(x, dict) and isinstance(y, dict):
+            for k in x:
+                if k in y:
+                    stack.append((x[k], y[k]))
+        elif isinstance(x, (list, tuple)) and isinstance(y, (list, tuple)) and len(x) == len(y):
+            stack.extend(zip(x, y))
+    return None
 
 
 def snapshot_with_attrs(nodes):
@@ -236,6 +256,10 @@ def check_copy(ctx, how, entry_idx, nodes, extra, case, rng, mutate=True):
         if snapshot_with_attrs(watch) != wsnap:
             ctx.violation("C19/%s/not-independent/%s-mutated" % (kind, side), "independence", cfg, expected="other side unchanged", observed="changed")
             return False
+        probs = M.invariant(mut.snapshot())
+        if probs:
+            ctx.violation("C19/%s/invariant-after-mutating-%s" % (kind, side), "forest-invariant-on-copy", cfg, expected="invariant I after mutating the %s" % side, observed=probs[:4])
+            return False
     return True
 
 
@@ -316,10 +340,11 @@ def histories(ctx):
                     last = None
                     break
         if last is not None:
-            _copy_from_universe(ctx, rng, fam, *last)
+            # only at the very end both sides are also mutated (that changes the universe itself)
+            _copy_from_universe(ctx, rng, fam, *last, mutate=True)
 
 
-def _copy_from_universe(ctx, rng, fam, nodes, par, ch, case):
+def _copy_from_universe(ctx, rng, fam, nodes, par, ch, case, mutate=False):
     from .. import ref as RF
 
     k = len(nodes)
@@ -333,7 +358,7 @@ def _copy_from_universe(ctx, rng, fam, nodes, par, ch, case):
     ctx.count("C19.after_faulted_history")
     ctx.case(("hist", fam, repr(case["history"])[:200], e, how))
     with ctx.guard(dict(case, entry=e, how=how)):
-        return check_copy(ctx, how, members.index(e), tree_nodes, extra, dict(case, mix="history:" + fam), rng, mutate=False)
+        return check_copy(ctx, how, members.index(e), tree_nodes, extra, dict(case, mix="history:" + fam), rng, mutate=mutate)
     return False
 
 
